@@ -57,7 +57,17 @@ pub fn gen(rng: &mut Rng, tier: Tier, idx: u64) -> Case {
     };
     let enc = refcodec::ref_encode(&a, sw.fam, &c.style);
     let bounds = span_bounds(&enc.spans);
-    c.packets = vec![a];
+    if rng.chance(1, 6) {
+        // an aimed malformation from the catalogue (F12) instead of the valid frame
+        let mals = crate::malform::enumerate(&a, sw.fam);
+        if !mals.is_empty() {
+            let m = &mals[rng.usize_below(mals.len())];
+            c.stream = Bs(m.frame.clone());
+        }
+    }
+    if c.stream.is_empty() {
+        c.packets = vec![a];
+    }
     if rng.chance(1, 3) {
         let n = rng.urange(1, 3);
         c.mutations = gen_mutations(rng, enc.bytes.len(), &bounds, n);
